@@ -850,17 +850,20 @@ func c03Exec(in c03Input) {
 			_ = ggql.Locate(t)
 		}
 	case "addtypes-names":
-		root := ggql.NewRoot(&zoo.Root{})
+		root := ggql.NewRoot(&c15Root{Query: &c15Obj{}, Mutation: &c15Obj{}, Subscription: &c15Obj{}})
 		if r.Intn(3) == 0 {
 			_ = root.ParseString("type Query { zzFirst: Int }")
 		}
-		_ = root.AddTypes(c13BuildTypes(c13NamePositions[r.Intn(len(c13NamePositions))], in.Text)...)
+		if err := root.AddTypes(c13BuildTypes(c13NamePositions[r.Intn(len(c13NamePositions))], in.Text)...); err != nil {
+			// refused: the same set with a proper name, so that what follows reads types that were built in Go
+			_ = root.AddTypes(c13BuildTypes("", "")...)
+		}
 		_ = root.SDL(false, true)
 		for _, t := range root.Types() {
 			_ = t.String()
 		}
 		_ = root.GetType(in.Text)
-		_ = root.ResolveString("{ __schema { types { name fields { name args { name } } enumValues { name } inputFields { name } } directives { name args { name } } } }", "", nil)
+		_ = root.ResolveString("{ __schema { types { name fields { name args { name } } enumValues { name } inputFields { name } possibleTypes { name } interfaces { name } } directives { name args { name } } } }", "", nil)
 	case "parse-bytes":
 		root := ggql.NewRoot(&zoo.Root{})
 		c03SetBudget(len(in.Text))
